@@ -117,6 +117,7 @@ type lvEntry struct {
 	name  string
 	level log.Level
 	call  func(ctx context.Context, tag *log.Tag, id int64)
+	noID  bool // the event carries no field at all: its record is recognised by its level
 }
 
 func lvEntries() []lvEntry {
@@ -125,26 +126,36 @@ func lvEntries() []lvEntry {
 		return func() []log.Field { return []log.Field{idf(id)} }
 	}
 	es := []lvEntry{
-		{"Trace", log.TraceLevel, func(c context.Context, t *log.Tag, id int64) { log.Trace(c, t, lazy(id)) }},
-		{"Tracef", log.TraceLevel, func(c context.Context, t *log.Tag, id int64) { log.Tracef(c, t, "id=%d", id) }},
-		{"Debug", log.DebugLevel, func(c context.Context, t *log.Tag, id int64) { log.Debug(c, t, lazy(id)) }},
-		{"Debugf", log.DebugLevel, func(c context.Context, t *log.Tag, id int64) { log.Debugf(c, t, "id=%d", id) }},
-		{"Info", log.InfoLevel, func(c context.Context, t *log.Tag, id int64) { log.Info(c, t, idf(id)) }},
-		{"Infof", log.InfoLevel, func(c context.Context, t *log.Tag, id int64) { log.Infof(c, t, "id=%d", id) }},
-		{"Warn", log.WarnLevel, func(c context.Context, t *log.Tag, id int64) { log.Warn(c, t, idf(id)) }},
-		{"Warnf", log.WarnLevel, func(c context.Context, t *log.Tag, id int64) { log.Warnf(c, t, "id=%d", id) }},
-		{"Error", log.ErrorLevel, func(c context.Context, t *log.Tag, id int64) { log.Error(c, t, idf(id)) }},
-		{"Errorf", log.ErrorLevel, func(c context.Context, t *log.Tag, id int64) { log.Errorf(c, t, "id=%d", id) }},
-		{"Panic", log.PanicLevel, func(c context.Context, t *log.Tag, id int64) { log.Panic(c, t, idf(id)) }},
-		{"Panicf", log.PanicLevel, func(c context.Context, t *log.Tag, id int64) { log.Panicf(c, t, "id=%d", id) }},
-		{"Fatal", log.FatalLevel, func(c context.Context, t *log.Tag, id int64) { log.Fatal(c, t, idf(id)) }},
-		{"Fatalf", log.FatalLevel, func(c context.Context, t *log.Tag, id int64) { log.Fatalf(c, t, "id=%d", id) }},
+		{name: "Trace", level: log.TraceLevel, call: func(c context.Context, t *log.Tag, id int64) { log.Trace(c, t, lazy(id)) }},
+		{name: "Tracef", level: log.TraceLevel, call: func(c context.Context, t *log.Tag, id int64) { log.Tracef(c, t, "id=%d", id) }},
+		{name: "Debug", level: log.DebugLevel, call: func(c context.Context, t *log.Tag, id int64) { log.Debug(c, t, lazy(id)) }},
+		{name: "Debugf", level: log.DebugLevel, call: func(c context.Context, t *log.Tag, id int64) { log.Debugf(c, t, "id=%d", id) }},
+		{name: "Info", level: log.InfoLevel, call: func(c context.Context, t *log.Tag, id int64) { log.Info(c, t, idf(id)) }},
+		{name: "Infof", level: log.InfoLevel, call: func(c context.Context, t *log.Tag, id int64) { log.Infof(c, t, "id=%d", id) }},
+		{name: "Warn", level: log.WarnLevel, call: func(c context.Context, t *log.Tag, id int64) { log.Warn(c, t, idf(id)) }},
+		{name: "Warnf", level: log.WarnLevel, call: func(c context.Context, t *log.Tag, id int64) { log.Warnf(c, t, "id=%d", id) }},
+		{name: "Error", level: log.ErrorLevel, call: func(c context.Context, t *log.Tag, id int64) { log.Error(c, t, idf(id)) }},
+		{name: "Errorf", level: log.ErrorLevel, call: func(c context.Context, t *log.Tag, id int64) { log.Errorf(c, t, "id=%d", id) }},
+		{name: "Panic", level: log.PanicLevel, call: func(c context.Context, t *log.Tag, id int64) { log.Panic(c, t, idf(id)) }},
+		{name: "Panicf", level: log.PanicLevel, call: func(c context.Context, t *log.Tag, id int64) { log.Panicf(c, t, "id=%d", id) }},
+		{name: "Fatal", level: log.FatalLevel, call: func(c context.Context, t *log.Tag, id int64) { log.Fatal(c, t, idf(id)) }},
+		{name: "Fatalf", level: log.FatalLevel, call: func(c context.Context, t *log.Tag, id int64) { log.Fatalf(c, t, "id=%d", id) }},
 	}
 	for _, l := range concLevels {
 		l := l
-		es = append(es, lvEntry{"Record(" + l.Name() + ")", l,
-			func(c context.Context, t *log.Tag, id int64) { log.Record(c, l, t, 1, idf(id)) }})
+		es = append(es, lvEntry{name: "Record(" + l.Name() + ")", level: l,
+			call: func(c context.Context, t *log.Tag, id int64) { log.Record(c, l, t, 1, idf(id)) }})
 	}
+	// events without any field of their own are events too: a generator that yields nothing, a call without fields
+	es = append(es,
+		lvEntry{name: "Trace(generator yields nil)", level: log.TraceLevel, noID: true,
+			call: func(c context.Context, t *log.Tag, id int64) { log.Trace(c, t, func() []log.Field { return nil }) }},
+		lvEntry{name: "Debug(generator yields none)", level: log.DebugLevel, noID: true,
+			call: func(c context.Context, t *log.Tag, id int64) {
+				log.Debug(c, t, func() []log.Field { return []log.Field{} })
+			}},
+		lvEntry{name: "Warn(no fields)", level: log.WarnLevel, noID: true,
+			call: func(c context.Context, t *log.Tag, id int64) { log.Warn(c, t) }})
 	return es
 }
 
@@ -162,6 +173,7 @@ func rangeStr(rng *rand.Rand, m []log.Level, r lvRange, top int, allowEmpty bool
 func inRange(code int32, lo, hi log.Level) bool { return code >= lo.Code() && code < hi.Code() }
 
 func cmdLevels(f hx.Flags, r *hx.Result) {
+	defer rootAcrossGenerations(r) // the root logger's level range is the live configuration's too
 	rng := hx.Rand(1)
 	console := sys.InstallConsole()
 	ctx := context.Background()
@@ -286,6 +298,7 @@ func cmdLevels(f hx.Flags, r *hx.Result) {
 			to    map[int]bool
 		}
 		exps := map[int64]*exp{}
+		noIDFor := map[string]int64{} // level name -> id of the entry whose event carries no id
 		id := int64(0)
 		lmin, lmax := m[c.LR.Min], m[c.LR.Max]
 		var panicked any
@@ -302,6 +315,9 @@ func cmdLevels(f hx.Flags, r *hx.Result) {
 				}
 			}
 			exps[id] = x
+			if e.noID {
+				noIDFor[e.level.Name()] = id
+			}
 			eid := id
 			ret, p := hx.Within(8*time.Second, func() { e.call(ctx, tag, eid) })
 			if !ret {
@@ -359,6 +375,9 @@ func cmdLevels(f hx.Flags, r *hx.Result) {
 						fmt.Sscanf(line[i+3:], "%d", &lid)
 					}
 				}
+				if lid < 0 && noIDFor[lvl] > 0 {
+					lid = noIDFor[lvl]
+				}
 				got[a][lid] = append(got[a][lid], lvl)
 			}
 		}
@@ -386,7 +405,11 @@ func cmdLevels(f hx.Flags, r *hx.Result) {
 			for a, name := range apps {
 				if ap := sys.Appender(name); ap != nil {
 					for _, rec := range ap.Recs() {
-						got[a][rec.ID] = append(got[a][rec.ID], rec.Level)
+						rid := rec.ID
+						if rid < 0 && noIDFor[rec.Level] > 0 {
+							rid = noIDFor[rec.Level]
+						}
+						got[a][rid] = append(got[a][rid], rec.Level)
 					}
 				}
 			}
